@@ -27,6 +27,8 @@ CELLS = dict(CELLS)
 CELLS['narrow-tilted'] = [[3.6, 0, 0], [1.8, 3.6, 0], [0, 0, 12.]]      # perpendicular widths between 1x and 2x the C-C cutoff
 CELLS['narrow-o'] = [[3.9, 0, 0], [0, 9.0, 0], [0, 0, 8.]]
 CELLS['narrow-tilted2'] = [[4.2, 0, 0], [-2.0, 4.0, 0], [1.0, -1.5, 9.]]
+CELLS['left-handed-t1'] = [CELLS['t1'][1], CELLS['t1'][0], CELLS['t1'][2]]      # the same lattice with a and b exchanged: negative determinant
+CELLS['left-handed-o'] = [[10., 0, 0], [0, 11., 0], [0, 0, -12.]]
 PAIRS = [('Cu', 'Cl'), ('Ni', 'S'), ('Zn', 'Br'), ('C', 'C'), ('C', 'H'), ('H', 'C'), ('Zn', 'O'), ('O', 'Zn'), ('Fe', 'Fe'), ('Zr', 'Cl'), ('Na', 'H'), ('Cu', 'N'), ('Li', 'Li'), ('S', 'Se'), ('K', 'O')]
 DIRS = [(1, 0, 0), (0, 1, 0), (0, 0, 1), (1, 1, 0), (1, 0, 1), (0, 1, 1), (1, -1, 0), (1, 0, -1), (0, 1, -1), (1, 1, 1), (1, -1, 1), (1, 1, -1), (-1, 1, 1)]
 
@@ -78,6 +80,10 @@ def instances(tier, seed):
         for ax in range(3):
             out.append(dict(name=f"bond:corner-crossing:{cell}:axis{ax}:{'swapped' if (ax + j) % 2 else 'stored-order'}", family='bond', pair=[('C', 'C'), ('Zn', 'O'), ('C', 'H')][ax], dir=9,
                             cell=cell, axes=[ax], other=other, third=False, swap=bool((ax + j) % 2), cost=15))
+    # left-handed cells (negative determinant) describe a lattice like any other
+    for j, (cell, di, ax) in enumerate([('left-handed-t1', 0, 0), ('left-handed-t1', 4, 2), ('left-handed-o', 2, 2), ('left-handed-o', 3, 1)]):
+        out.append(dict(name=f"bond:{cell}:dir{di}:axis{ax}", family='bond', pair=[('C', 'C'), ('Zn', 'O')][j % 2], dir=di, cell=cell, axes=[ax], other=(0.96, 0.5, 0.97), third=False,
+                        swap=bool(j % 2), cost=15))
     # a cell given in whole numbers (np.diag([10, 11, 12]) / nested lists of ints: the array has an integer dtype) is the same cell
     out.append(dict(name="bond:C-H:dir4:o1:cell-with-integer-dtype", family='bond', pair=('C', 'H'), dir=4, cell='o1', axes=[0], other=(0.0, 0.37, 0.93), third=False, int_cell=True, cost=20))
     out.append(dict(name="bond:Zn-O:dir9:o1:cell-with-integer-dtype", family='bond', pair=('Zn', 'O'), dir=9, cell='o1', axes=[2], other=(0.97, 0.5, 0.0), third=False, int_cell=True, swap=True, cost=20))
